@@ -112,7 +112,8 @@ SPECS["C26"] = {
 }
 
 SPECS["C25"] = {
-    "parts": [{"engine": "kani", "group": "ul", "select": r"^c25_", "mem_gb": 12, "timeout": {"quick": 1500, "thorough": 2400}}],
+    "parts": [{"engine": "kani", "group": "ul", "select": r"^c25_", "mem_gb": 12, "timeout": {"quick": 1500, "thorough": 2400}},
+              {"engine": "m", "module": "c25"}],
     "functions": ["dicom_ul::pdu::writer::write_pdu (+ write_chunk_u32)", "dicom_ul::pdu::reader::read_pdu"],
     "bounds": "A-RELEASE-RQ/RP, P-DATA-TF with one PDV of 2 symbolic bytes (context id, type, last flag symbolic), unknown PDU type; "
               "strict prefixes of concrete length per instance; strict mode on an arbitrary 6-byte header with symbolic maximum length",
